@@ -1,4 +1,280 @@
 import FqModel.Proto
-/-! driver for C14 (stub — replaced by the property's own driver) -/
-open FqModel.Proto
-def main : IO Unit := run (fun _ _ => "BADOP driver-stub")
+import FqModel.Bits
+import FqModel.Codec
+import FqModel.C14Hash
+import FqModel.C14Json
+/-!
+  driver for C14.  Case lines (everything binary/text is lower-case hex, `-` = empty):
+
+    <codec> rt  <input>   TAB  <to_F output | err> [<from_F of that output | err>]
+    <codec> dec <text>    TAB  <from_F output | err>
+    <hash>  hash <bin>    TAB  <digest>
+
+  <bin>  = <hex>/<nbits>  (bytes zero-padded on the right, nbits = exact bit length)
+  codecs on binaries : hex b64std b64url b64rawstd b64rawurl          (rt input = <bin>)
+  codecs on strings  : urlq urlp latin1 utf8 utf16 utf16le utf16be    (rt input = hex of the Go string)
+  radix              : `radix rt <base> <decimal>` / `radix dec <base> <texthex>`
+
+  Verdicts: rt  — PROPFAIL if fq's own from_F(to_F(x)) differs from x (evaluated on fq's outputs,
+                  independent of the model), or if a binary-to-text encoding differs from the
+                  reference encoder; DIVERGE if the model predicts another text / decode result.
+            dec — PROPFAIL if fq returns a value where the reference decoder reports malformed
+                  input, or returns a different value; DIVERGE if fq rejects what the model accepts.
+-/
+open FqModel FqModel.Proto FqModel.Codec
+
+def hx (bs : Bytes) : String := if bs.isEmpty then "-" else hexOfBytes bs
+
+def showO (o : Option Bytes) : String := match o with | some b => hx b | none => "err"
+
+def parseO (s : String) : Option (Option Bytes) :=
+  if s == "err" then some none else (bytesOfHex s).map some
+
+def parseBin (s : String) : Option Bits :=
+  match s.splitOn "/" with
+  | [h, n] => do
+    let bs ← bytesOfHex h
+    let n ← n.toNat?
+    let bits := bytesToBits bs
+    if n ≤ bits.length ∧ bits.length < n + 8 then some (bits.take n) else none
+  | _ => none
+
+def charsOfBytes (bs : Bytes) : Option (List Char) :=
+  (String.fromUTF8? (ByteArray.mk bs.toArray)).map String.toList
+
+def bytesOfChars (cs : List Char) : Bytes := (String.ofList cs).toUTF8.toList
+
+def strOfBytes (bs : Bytes) : Option String := String.fromUTF8? (ByteArray.mk bs.toArray)
+
+/-- binary -> text codecs -/
+def binCodec (name : String) : Option ((Bytes → Bytes) × (Bytes → Option Bytes)) :=
+  match name with
+  | "hex" => some (hexEnc, hexDec)
+  | "b64std" => some (b64Std.enc, b64Std.dec)
+  | "b64url" => some (b64Url.enc, b64Url.dec)
+  | "b64rawstd" => some (b64RawStd.enc, b64RawStd.dec)
+  | "b64rawurl" => some (b64RawUrl.enc, b64RawUrl.dec)
+  | _ => none
+
+/-- string -> string codecs (byte level) -/
+def strCodec (name : String) : Option ((Bytes → Bytes) × (Bytes → Option Bytes)) :=
+  match name with
+  | "urlq" => some (urlEscape true, urlUnescape true)
+  | "urlp" => some (urlEscape false, urlUnescape false)
+  | _ => none
+
+/-- unicode string -> bytes encoders, bytes -> unicode string decoders -/
+def txtCodec (name : String) : Option ((List Char → Option Bytes) × (Bytes → Option (List Char))) :=
+  match name with
+  | "latin1" => some (toLatin1, fun b => some (fromLatin1 b))
+  | "utf8" => some (fun s => some (toUtf8 s), fun b => some (fromUtf8 b))
+  | "utf16" => some (fun s => some (toUtf16 true true s), fun b => some (fromUtf16 true true b))
+  | "utf16le" => some (fun s => some (toUtf16 true false s), fun b => some (fromUtf16 true false b))
+  | "utf16be" => some (fun s => some (toUtf16 false false s), fun b => some (fromUtf16 false false b))
+  | _ => none
+
+def mkVerdict (propfail : Option String) (diverge : Option String) : String :=
+  match propfail, diverge with
+  | some p, some d => s!"PROPFAIL {p} ;DIVERGE model={d}"
+  | some p, none => s!"PROPFAIL {p}"
+  | none, some d => s!"DIVERGE model={d}"
+  | none, none => "OK"
+
+/-- round trip of an encoder/decoder pair over `Bytes` where the original is `orig` -/
+def rtVerdict (enc : Bytes → Bytes) (dec : Bytes → Option Bytes) (orig : Bytes) (refIsSpec : Bool)
+    (obs : List String) : String :=
+  match obs with
+  | [t, d] =>
+    match parseO t, parseO d with
+    | some (some implText), some implDec =>
+      let mText := enc orig
+      let mDec := dec implText
+      let pf :=
+        if implDec != some orig then some s!"roundtrip from(to(x))={showO implDec} x={hx orig}"
+        else if refIsSpec && implText != mText then some s!"encoding-differs-from-reference ref={hx mText}"
+        else none
+      let dv := if implText != mText || implDec != mDec then some s!"{hx mText} {showO mDec}" else none
+      mkVerdict pf dv
+    | _, _ => "BADOP obs"
+  | [t] =>
+    -- to_F failed: never allowed for these total encoders
+    if t == "err" then mkVerdict (some "encoder-error-in-domain") (some (hx (enc orig))) else "BADOP obs"
+  | _ => "BADOP obs"
+
+def decVerdict (mDec : Option Bytes) (obs : String) : String :=
+  match parseO obs with
+  | some impl =>
+    if impl == mDec then "OK"
+    else match mDec, impl with
+      | none, some _ => mkVerdict (some "malformed-input-accepted") (some "err")
+      | some m, some _ => mkVerdict (some "wrong-value") (some (hx m))
+      | some m, none => mkVerdict none (some (hx m))
+      | none, none => "OK"
+  | none => "BADOP obs"
+
+def stepRadix (dir : String) (args : List String) (obs : String) : String :=
+  match dir, args with
+  | "rt", [b, n] =>
+    match b.toNat?, n.toNat? with
+    | some b, some n =>
+      match words obs with
+      | [t, d] =>
+        match parseO t with
+        | some (some implText) =>
+          match strOfBytes implText with
+          | none => "PROPFAIL to_radix-not-utf8"
+          | some s =>
+            let mText := (toRadix b n).map String.ofList
+            let implDec : Option (Option Nat) := if d == "err" then some none else d.toNat?.map some
+            match implDec with
+            | none => "BADOP obs-dec"
+            | some implDec =>
+              let mDec := fromRadix b s.toList
+              let pf := if implDec != some n then some s!"roundtrip from_radix(to_radix(n))={d}" else none
+              let dv := if mText != some s || mDec != implDec then some s!"{mText} {mDec}" else none
+              mkVerdict pf dv
+        | _ => "BADOP obs"
+      | [t] =>
+        if t == "err" then
+          (if (toRadix b n).isNone && ¬ (2 ≤ b ∧ b ≤ 64) then "OK" else mkVerdict (some "to_radix-error-in-domain") (some s!"{toRadix b n}"))
+        else "BADOP obs"
+      | _ => "BADOP obs"
+    | _, _ => "BADOP args"
+  | "dec", [b, t] =>
+    match b.toNat?, bytesOfHex t with
+    | some b, some tb =>
+      match charsOfBytes tb with
+      | none => "BADOP text-not-utf8"
+      | some cs =>
+        let m := fromRadix b cs
+        let impl : Option (Option Nat) := if obs == "err" then some none else obs.toNat?.map some
+        match impl with
+        | none => "BADOP obs"
+        | some impl =>
+          if impl == m then "OK"
+          else match m, impl with
+            | none, some _ => mkVerdict (some "malformed-input-accepted") (some "err")
+            | some m, some _ => mkVerdict (some "wrong-value") (some s!"{m}")
+            | m, _ => mkVerdict none (some s!"{m}")
+    | _, _ => "BADOP args"
+  | _, _ => "BADOP radix-op"
+
+def hashFn (name : String) : Option (Bytes → Bytes) :=
+  match name with
+  | "md5" => some Hash.md5
+  | "sha1" => some Hash.sha1
+  | "sha256" => some Hash.sha256
+  | "sha512" => some Hash.sha512
+  | _ => none
+
+open FqModel.Json in
+def showPR (p : PR JV) : String :=
+  match p with
+  | .ok v _ => String.ofList (wire v)
+  | .err => "err"
+  | .unmodelled => "unmodelled"
+
+open FqModel.Json in
+def stepJson (dir input obs : String) : String :=
+  match dir with
+  | "rt" =>
+    match unwireAll input with
+    | none => "BADOP json-input"
+    | some v =>
+      let mText := bytesOfChars (encode v)
+      match words obs with
+      | ["err"] => mkVerdict (some "tojson-error-in-domain") (some (hx mText))
+      | [t, d] =>
+        match parseO t with
+        | some (some implText) =>
+          let implDec : Option (Option JV) := if d == "err" then some none else (unwireAll d).map some
+          match implDec, charsOfBytes implText with
+          | some implDec, some cs =>
+            let mDec := parse cs
+            let pf := if implDec != some v then some s!"roundtrip fromjson(tojson(x))={d}" else none
+            let agree := match mDec, implDec with
+              | .ok m _, some i => m == i
+              | .err, none => true
+              | _, _ => false
+            let dv := if implText != mText || !agree then some s!"{hx mText} {showPR mDec}" else none
+            mkVerdict pf dv
+          | none, _ => "BADOP json-obs-value"
+          | _, none => "PROPFAIL tojson-not-utf8"
+        | _ => "BADOP obs"
+      | _ => "BADOP obs"
+  | "dec" =>
+    match (bytesOfHex input).bind charsOfBytes with
+    | none => "BADOP json-text"
+    | some cs =>
+      let m := parse cs
+      -- a well-formed text with a fraction/exponent number is outside the modelled fragment: only
+      -- "accepted, not an error" is compared
+      if (match m with | .ok v _ => hasFloat v | _ => false) then
+        (if obs == "err" then mkVerdict none (some "value-with-float") else "OK unmodelled-float")
+      else
+      let impl : Option (Option JV) := if obs == "err" then some none else (unwireAll obs).map some
+      match impl, m with
+      | none, _ => "BADOP json-obs-value"
+      | _, .unmodelled => "BADOP unmodelled-number"
+      | some none, .err => "OK"
+      | some (some i), .ok v _ => if i == v then "OK" else mkVerdict (some "wrong-value") (some (showPR m))
+      | some (some _), .err => mkVerdict (some "malformed-input-accepted") (some "err")
+      | some none, .ok _ _ => mkVerdict none (some (showPR m))
+  | _ => "BADOP json-op"
+
+def stepC14 (op obs : String) : String :=
+  if (obs.splitOn "panic").length > 1 then "PROPFAIL go-panic" else
+  match words op with
+  | "radix" :: dir :: args => stepRadix dir args obs
+  | ["json", dir, input] => stepJson dir input obs
+  | [h, "hash", input] =>
+    match hashFn h, parseBin input with
+    | some f, some bits =>
+      -- hash.go:63-70: the bits are read through bitio.NewIOReader (zero-padded to a byte)
+      let m := hx (f (bitsToBytesPadR bits))
+      if obs == m then "OK" else s!"PROPFAIL digest-differs-from-reference ;DIVERGE model={m}"
+    | _, _ => "BADOP hash"
+  | [codec, "rt", input] =>
+    match binCodec codec, strCodec codec, txtCodec codec with
+    | some (enc, dec), _, _ =>
+      match parseBin input with
+      | some bits => rtVerdict enc dec (bitsToBytesPadR bits) true (words obs)
+      | none => "BADOP input"
+    | _, some (enc, dec), _ =>
+      match bytesOfHex input with
+      | some s => rtVerdict enc dec s false (words obs)
+      | none => "BADOP input"
+    | _, _, some (enc, dec) =>
+      match (bytesOfHex input).bind charsOfBytes with
+      | none => "BADOP input"
+      | some cs =>
+        let mEnc := enc cs
+        match words obs with
+        | ["err"] => if mEnc.isNone then "OK" else mkVerdict (some "encoder-error-in-domain") (some (showO mEnc))
+        | [t, d] =>
+          match parseO t, parseO d with
+          | some (some implBytes), some implDec =>
+            let implDecC := implDec.bind charsOfBytes
+            let mDec := dec implBytes
+            let pf :=
+              if mEnc.isNone then some "unencodable-string-accepted"
+              else if implDecC != some cs then some s!"roundtrip from(to(s))={showO implDec}"
+              else none
+            let dv := if mEnc != some implBytes || mDec != implDecC then
+              some s!"{showO mEnc} {showO (mDec.map bytesOfChars)}" else none
+            mkVerdict pf dv
+          | _, _ => "BADOP obs"
+        | _ => "BADOP obs"
+    | none, none, none => "BADOP codec"
+  | [codec, "dec", input] =>
+    match bytesOfHex input with
+    | none => "BADOP input"
+    | some t =>
+      match binCodec codec, strCodec codec, txtCodec codec with
+      | some (_, dec), _, _ => decVerdict (dec t) obs
+      | _, some (_, dec), _ => decVerdict (dec t) obs
+      | _, _, some (_, dec) => decVerdict ((dec t).map bytesOfChars) obs
+      | none, none, none => "BADOP codec"
+  | _ => "BADOP op"
+
+def main : IO Unit := run stepC14
